@@ -761,6 +761,10 @@ def cert_shapes():
         out.append({"cns": ["alice"], "eku": eku, "issuer_cn": "bob"})
         out.append({"cns": [], "eku": eku, "issuer_cn": "alice"})
         out.append({"cns": [], "eku": eku, "layout": "multi-ou", "issuer_cn": "alice"})
+        # the same common name more than once is still more than one common name
+        out.append({"cns": ["alice", "alice"], "eku": eku})
+        out.append({"cns": ["alice", "alice"], "eku": eku, "layout": "cn-first"})
+        out.append({"cns": ["bob", "bob", "bob"], "eku": eku})
     return out
 
 
@@ -875,10 +879,12 @@ def session_strategy():
                           "beh": [draw(beh) if b["name"].startswith("auth:slugs") else None
                                   for b in blocks]})
         names = draw(st.sampled_from([["alice"], ["alice"], ["alice"], ["bob"],
-                                      ["alice", "bob"], []]))
+                                      ["alice", "bob"], [], ["alice", "alice"]]))
         cert = {"cns": names, "eku": draw(st.sampled_from(["client", "client", "both", None])),
                 "layout": draw(st.sampled_from(["separate", "separate", "multi", "multi-ou",
                                                 "cn-first"]))}
+        if len(set(names)) != len(names) and cert["layout"] in ("multi", "multi-ou"):
+            cert["layout"] = "separate"     # one RDN cannot hold two equal attributes
         return {"cert": cert, "tls": draw(st.booleans()), "plugins": blocks, "steps": steps}
 
     return case()
@@ -924,11 +930,13 @@ def case_strategy():
         if draw(st.integers(0, 3)) > 0:
             names = [draw(cn)]
         else:
-            names = draw(st.lists(cn, min_size=0, max_size=3, unique=True))
+            names = draw(st.lists(cn, min_size=0, max_size=3))
         eku = draw(st.sampled_from([None, "server", "client", "client", "both", "both", "client+any",
                                     "any", "server+any", "other"]))
         c = {"cns": names, "eku": eku}
         lay = draw(st.sampled_from(["separate"] * 4 + ["multi", "multi", "multi-ou", "cn-first"]))
+        if len(set(names)) != len(names) and lay in ("multi", "multi-ou"):
+            lay = "separate"                # one RDN cannot hold two equal attributes
         if lay != "separate":
             c["layout"] = lay
         if draw(st.integers(0, 5)) == 0:
